@@ -732,7 +732,7 @@ func c02Reject(c *Ctx) {
 			})
 		}},
 		{"dnssl-empty-label", "parseDNSSL", "domain names have no empty label", func(r rejection) bool {
-			// both forms are rejected: a leading dot and two consecutive dots (checked on the normalised name)
+			// all three forms are rejected: a leading dot, two consecutive dots, and a dot still at the end after the single trailing dot was trimmed (checked on the normalised name)
 			return lastIs(r, func(a an.PathAtom) bool {
 				e := a.Cond
 				if !a.Pos || e.Op != an.OpCall || e.Fn == nil || len(e.Args) != 2 {
@@ -741,6 +741,8 @@ func c02Reject(c *Ctx) {
 				onName := e.Args[0].Contains(func(z *an.Expr) bool { return z.Op == an.OpElem && len(z.Args) == 2 && z.Args[0].IsField("DomainNames") })
 				switch e.Fn.String() {
 				case "strings.HasPrefix":
+					return onName && e.Args[1].IsConst(`"."`)
+				case "strings.HasSuffix":
 					return onName && e.Args[1].IsConst(`"."`)
 				case "strings.Contains":
 					return onName && e.Args[1].IsConst(`".."`)
@@ -1540,7 +1542,10 @@ func sameFieldLoad(a, b ssa.Value) bool {
 // emptyLabelBoth reports whether the rejections of parseDNSSL include one
 // decided by strings.HasPrefix(name, ".") and one by strings.Contains(name, "..").
 func emptyLabelBoth(rs []rejection) bool {
-	pre, mid := false, false
+	// three places for an empty label: in front (leading dot), inside (two consecutive dots) and at the end
+	// (a dot left after the one permitted trailing dot was trimmed; not needed when every trailing dot is
+	// trimmed with TrimRight)
+	pre, mid, suf := false, false, false
 	for _, r := range rs {
 		if len(r.atoms) == 0 {
 			continue
@@ -1550,10 +1555,19 @@ func emptyLabelBoth(rs []rejection) bool {
 		if !a.Pos || e.Op != an.OpCall || e.Fn == nil || len(e.Args) != 2 {
 			continue
 		}
+		if e.Args[0].Contains(func(z *an.Expr) bool {
+			return z.Op == an.OpCall && z.Fn != nil && z.Fn.String() == "strings.TrimRight" && len(z.Args) == 2 && z.Args[1].IsConst(`"."`)
+		}) {
+			suf = true
+		}
 		switch e.Fn.String() {
 		case "strings.HasPrefix":
 			if e.Args[1].IsConst(`"."`) {
 				pre = true
+			}
+		case "strings.HasSuffix":
+			if e.Args[1].IsConst(`"."`) {
+				suf = true
 			}
 		case "strings.Contains":
 			if e.Args[1].IsConst(`".."`) {
@@ -1561,5 +1575,5 @@ func emptyLabelBoth(rs []rejection) bool {
 			}
 		}
 	}
-	return pre && mid
+	return pre && mid && suf
 }
